@@ -16,6 +16,36 @@ HEADER = ('From Coq Require Import List ZArith NArith Bool.\nFrom DV Require Imp
           'Definition pcase (cs : list (list (N * expr))) (e : expr) :=\n'
           '  match mkstack cs with Some st => let r := run_impl 80 st e in Some (fst r, snd r, st) | None => None end.\n')
 
+PT_HEADER = 'From Coq Require Import List ZArith NArith Bool.\nFrom DV Require Import C01.Syntax C13.ParseScope.\nImport ListNotations.\n'
+# scope-relevant parser actions -> model actions
+ACT = {'context_begin': 'P', 'context_entry': 'A', 'context_end': 'O', 'for_begin': 'PA', 'iteration_context_variable_name': 'A', 'for': 'O',
+       'some_begin': 'P', 'every_begin': 'P', 'quantified_expression_variable_name': 'A', 'some': 'O', 'every': 'O',
+       'function_formal_parameters_begin': 'P', 'function_formal_parameter_with_type': 'A', 'function_formal_parameter_without_type': 'A',
+       'function_body': 'O', 'function_body_external': 'O'}
+
+
+def parse_traces(ctx, reqs):
+    """runs `dv ptrace` and returns, per request, (ok, shape string of the scope actions the real parser performed, scope before, scope after)"""
+    import re, subprocess, os
+    exe = os.path.join(core.TARGET, 'debug', 'dv')
+    p = subprocess.run([exe, 'ptrace'], input='\n'.join(json.dumps(r) for r in reqs) + '\n', stdout=subprocess.PIPE, stderr=subprocess.PIPE, text=True, errors='replace', timeout=900)
+    out = []
+    for block in p.stdout.split('@@BEGIN')[1:]:
+        body, _, tail = block.partition('@@END')
+        names = re.findall(r'action: \[(?:\x1b\[[0-9;]*m)?([a-z_]+)', body)
+        shape = ''.join(ACT.get(n, '') for n in names)
+        try:
+            j = json.loads(tail.strip().split('\n')[0])
+        except Exception:
+            j = {}
+        out.append((j.get('ok'), shape, j.get('s0'), j.get('s1')))
+    return out
+
+
+def model_shape(t):
+    return ''.join({'PPush': 'P', 'PPop': 'O', 'PAdd': 'A'}[a.name] for a in t)
+
+
 XML = '''<?xml version="1.0" encoding="UTF-8"?><definitions namespace="ns13" name="m13" id="m13" xmlns="https://www.omg.org/spec/DMN/20191111/MODEL/">
 <inputData name="va" id="i1"><variable name="va" typeRef="number"/></inputData>
 <inputData name="vb" id="i2"><variable name="vb" typeRef="number"/></inputData>
@@ -134,6 +164,33 @@ def run(ctx):
                 # value disagreements are C01's subject; here they only mean the model does not describe this evaluation
                 ctx.corr_broken('value of a prepared expression (C01 decides whether it is wrong)', {'scopes': rq['scopes'][si], 'e': rq['exprs'][ei]}, ival(v), mv)
         ctx.sample({'scopes': rq['scopes'], 'exprs': rq['exprs'][:2], 'seq': rq['seq'][:8]})
+    # ---- the parser's own scope discipline: action trace of the real parser vs coq/C13/ParseScope.v
+    pt = []
+    for (scopes, exprs, seq), rq in list(zip(hist, reqs))[:ctx.pick(250, 3000)]:
+        ei = seq[0][0]
+        si = seq[0][1]
+        merged = {}
+        for c in scopes[si]:
+            merged.update(dict(c))
+        pt.append((exprs[ei], {'ctx': G.feel(('ctx', tuple(sorted(merged.items())))) if merged else '', 'e': rq['exprs'][ei]}))
+    traces = parse_traces(ctx, [r for _, r in pt])
+    shapes = ctx.run_model(PT_HEADER, ['pacts 80 %s' % G.coq(e) for e, _ in pt], shard_size=300, tag='pt')
+    pushing_traces = 0
+    for (e, r), tr, ms in zip(pt, traces, shapes):
+        ctx.evaluations += 1
+        ok, shape, s0, s1 = tr
+        if not ok:
+            continue
+        ctx.corr_checked += 1
+        if s0 != s1:
+            ctx.violation('a successful parse altered the parsing scope: %s -> %s' % (s0, s1), r)
+            continue
+        if 'P' in shape:
+            pushing_traces += 1
+            ctx.nontrivial.add('parse:' + r['e'])
+        if shape != model_shape(ms):
+            ctx.corr_broken('scope actions of the parser differ from coq/C13/ParseScope.v', r, shape, model_shape(ms))
+    ctx.cov['parse_traces_with_scope_actions'] = pushing_traces
     # ---- shuffled repeated invocations of one model evaluator (decisions, boxed context, BKM)
     mreqs, mexp = [], []
     for _ in range(ctx.pick(60, 600)):
